@@ -35,7 +35,7 @@ ASSUMPTIONS = [
     'dump_to_file is called with encoding=utf-8 (with encoding=None it opens the file in binary mode and cannot '
     'write str at all)',
 ]
-SHARD = 120
+SHARD = 250
 COQ_TARGETS = ['theories/Container/C18Corr.vo']
 
 FILES = os.path.join(core.WORK, PID, 'files')
@@ -179,8 +179,33 @@ def gen_random(rng, kind='mem', nrows=None):
 def gen_file(rng, target):
     """a block of random rows repeated until the file is larger than `target` characters"""
     c = gen_random(rng, 'file', nrows=rng.randint(8, 40))
-    blk = sum(sum(len(str(dec(v))) + 3 for v in r) + 1 for r in c['rows'])
+    # lower bound of the length of the block as dump writes it, so that the file is at least `target` long
+    blk = sum(sum(len(str(dec(v))) + (2 if v[0] == 's' else 0) for v in r) + (len(r) - 1) * len(c['sep']) + 1
+              for r in c['rows'])
     c['repeat'] = max(1, target // max(blk, 1) + 1) if target else 1
+    return c
+
+
+def gen_exact_file(rng, total):
+    """one str column, a block of rows repeated so that the file has exactly `total` characters (header c0\\n
+    included): files that end exactly at / one character after a 64 KiB read boundary"""
+    sep, esc = rng.choice(SEPS1), '\\'
+    body = total - 3
+    divs = [d for d in range(40, 3000) if body % d == 0]
+    if not divs:
+        return gen_file(rng, total)
+    blk = rng.choice(divs)
+    rows, used = [], 0
+    while True:
+        s = rnd_str(rng, sep, esc)
+        ln = len(s) + s.count(esc) + s.count(QUOTE) + 3      # quotes, escapes, newline
+        if used + ln + 3 > blk:
+            break
+        rows.append([['s', s]])
+        used += ln
+    rows.append([['s', 'a' * (blk - used - 3)]])
+    c = mk('file', sep, esc, ['str'], rows, body // blk)
+    c['exact'] = total
     return c
 
 
@@ -224,16 +249,18 @@ def seeds():
 def generate(rng, tier):
     if tier == 'search':
         return [gen_random(rng) for _ in range(300)] + [gen_parse(rng) for _ in range(100)]
-    cases = seeds()
+    cases = []
     # (a) exhaustive strings over {a, sep, quote, escape}
     all6 = strings_upto(['a', ',', QUOTE, '\\'], 6)
     if tier == 'quick':
-        small = [s for s in all6 if len(s) <= 4]
-        big = [s for s in all6 if len(s) > 4]
-        cases += exhaustive(',', '\\', small + rng.sample(big, 700))
-        cases += exhaustive('||', '^', rng.sample(strings_upto(['a', '||', QUOTE, '^', '|'], 4), 200))
-        cases += exhaustive_parse(',', '\\', 3)
-        n_rand, n_parse, files = 500, 400, [0, 66000, 70000]
+        small = [s for s in all6 if len(s) <= 5]
+        big = [s for s in all6 if len(s) > 5]
+        cases += exhaustive(',', '\\', small + rng.sample(big, 1000))
+        cases += exhaustive('||', '^', rng.sample(strings_upto(['a', '||', QUOTE, '^', '|'], 4), 300))
+        cases += exhaustive(';', '~', rng.sample(strings_upto(['a', ';', QUOTE, '~'], 5), 300))
+        cases += exhaustive_parse(',', '\\', 5)
+        n_rand, n_parse, files = 1200, 800, [0, 66000, 70000, 131100]
+        exact = [65536]
     else:
         cases += exhaustive(',', '\\', all6)
         for sep, esc in [(';', '^'), ('\t', '\\'), ('|', '~')]:
@@ -242,18 +269,19 @@ def generate(rng, tier):
             cases += exhaustive(sep, esc, strings_upto(['a', sep, QUOTE, esc, sep[0]], 4))
         cases += exhaustive_parse(',', '\\', 5)
         cases += exhaustive_parse('||', '^', 4)
-        n_rand, n_parse = 7000, 4000
+        n_rand, n_parse = 20000, 8000
+        exact = [65535, 65536, 65537, 65537, 131072, 131073, 196608]
         files = [0, 0, 500, 65000, 65530, 65536, 65540, 66000, 66000, 70000, 70000, 80000, 100000, 131000,
                  131072, 131100, 140000, 200000, 66000, 67000, 68000, 69000, 90000, 262200]
-    # (b) random typed rows, (d) malformed lines
-    rnd = [gen_random(rng) for _ in range(n_rand)] + [gen_parse(rng) for _ in range(n_parse)]
-    rng.shuffle(rnd)
+    # (b) random typed rows, (d) malformed lines; shuffled so that the Coq shards have similar sizes
+    cases += [gen_random(rng) for _ in range(n_rand)] + [gen_parse(rng) for _ in range(n_parse)]
+    rng.shuffle(cases)
     # (c) real files, spread over the shards
-    fcases = [gen_file(rng, t) for t in files]
-    step = max(1, len(rnd) // (len(fcases) + 1))
+    fcases = [gen_file(rng, t) for t in files] + [gen_exact_file(rng, t) for t in exact]
+    step = max(1, len(cases) // (len(fcases) + 1))
     for i, fc in enumerate(fcases):
-        rnd.insert(min(len(rnd), (i + 1) * step + i), fc)
-    return cases + rnd
+        cases.insert(min(len(cases), (i + 1) * step + i), fc)
+    return seeds() + cases
 
 
 # --------------------------------------------------------------------------------------------------
